@@ -118,3 +118,123 @@ Print Assumptions C12_route_typed_old_refuted.
 Theorem C12_route_old_witness_now : route_construct true old_witness_prog = Err FType.
 Proof. exact route_old_witness_now. Qed.
 Print Assumptions C12_route_old_witness_now.
+
+(* ====================================================================== phase 2 *)
+(* 7. The witness stream of this family is the witness stream of C01 (Codec/WitnessCodec.v), and "own
+   serialisation decodes" covers the program bits as well (Codec/Main.v canonical_roundtrip). *)
+From RS Require Codec.NodeCodec Codec.ProgCodec Codec.Linearise Codec.Decode Codec.WitnessCodec Codec.RealJets
+  Redeem.CodecBridge.
+Import Redeem.CodecBridge.
+
+(* the typed witness decoder is the bare one of C01 with the types re-attached *)
+Theorem C12_decode_witnesses_read : forall (tys : list ty) (bits : list bool),
+  decode_witnesses tys bits =
+  match WitnessCodec.read_witnesses tys bits with
+  | Some (vs, rest) => Ok (with_types tys vs, rest)
+  | None => Err DEndOfStream
+  end.
+Proof. exact decode_witnesses_read. Qed.
+Print Assumptions C12_decode_witnesses_read.
+
+Theorem C12_witness_stream_enc : forall cs : list cval,
+  witness_stream cs = WitnessCodec.enc_witnesses (map cv_val cs).
+Proof. exact witness_stream_enc. Qed.
+Print Assumptions C12_witness_stream_enc.
+
+(* C12_typed_encodes re-derived from C01_witness_rt *)
+Theorem C12_typed_encodes_via_codec : forall (cs : list cval) (targets : list ty) (rest : list bool),
+  Forall2 (fun c t => wit_ok c t = true) cs targets ->
+  decode_witnesses targets (witness_stream cs ++ rest) = Ok (cs, rest).
+Proof. exact typed_encodes_via_codec. Qed.
+Print Assumptions C12_typed_encodes_via_codec.
+
+(* the stream determines the witnesses, values and types (C01_witness_unique) *)
+Theorem C12_witness_stream_determines : forall (cs ds : list cval) (targets : list ty),
+  Forall2 (fun c t => wit_ok c t = true) cs targets ->
+  Forall2 (fun c t => wit_ok c t = true) ds targets ->
+  witness_stream cs = witness_stream ds -> cs = ds.
+Proof. exact witness_stream_determines. Qed.
+Print Assumptions C12_witness_stream_determines.
+
+(* whatever the witness decoder accepts is the stream of the values it returns plus fewer than 8 zero bits *)
+Theorem C12_decode_stream_canonical : forall (targets : list ty) (stream : list bool) (cs : list cval),
+  decode_stream targets stream = Ok cs ->
+  exists rest, stream = witness_stream cs ++ rest /\ Forall (fun b => b = false) rest /\ (length rest < 8)%nat.
+Proof. exact decode_stream_canonical. Qed.
+Print Assumptions C12_decode_stream_canonical.
+
+(* a redemption program in decoded (canonical, maximally shared) form whose witness nodes carry typed values:
+   the program bits decode to the same node list AND the witness bytes decode to the same values at the same
+   types, in the order in which encoder and decoder traverse the witness nodes - for any prefix-free jet code *)
+Theorem C12_typed_program_roundtrip : forall (jet : Type) (jet_okb : jet -> bool) (jet_enc : jet -> list bool)
+    (jet_dec : list bool -> outcome NodeCodec.dec_err (jet * list bool)),
+  (forall j r, jet_okb j = true -> jet_dec (jet_enc j ++ r) = Ok (j, r)) ->
+  (forall l j r, jet_dec l = Ok (j, r) -> l = jet_enc j ++ r /\ jet_okb j = true) ->
+  (forall l, match jet_dec l with Panic _ | OutOfFuel => False | _ => True end) ->
+  forall (ns : list (NodeCodec.dnode jet)) (r : list bool) (key : N -> option N) (kf : N -> N)
+    (wval : N -> cval) (target : N -> ty),
+  NodeCodec.wf_prog jet jet_okb ns -> Decode.dec_struct ns = Ok tt ->
+  (forall p, p < N.of_nat (length ns) -> key p = Some (kf p)) ->
+  (forall p q, p < N.of_nat (length ns) -> q < N.of_nat (length ns) -> kf p = kf q -> p = q) ->
+  (forall n, In n (WitnessCodec.witness_order ns key) -> wit_ok (wval n) (target n) = true) ->
+  let order := WitnessCodec.witness_order ns key in
+  NodeCodec.dec_prog jet jet_dec (NodeCodec.enc_prog jet jet_enc (Linearise.linearise ns key) ++ r) = Ok (ns, r) /\
+  WitnessCodec.witness_stream ns key (fun n => compact_enc (cv_val (wval n))) = witness_stream (map wval order) /\
+  decode_stream (map target order) (pad_to_byte (witness_stream (map wval order))) = Ok (map wval order).
+Proof. exact typed_program_roundtrip. Qed.
+Print Assumptions C12_typed_program_roundtrip.
+
+(* ... and for the real Elements jet code (src/jet/init/elements.rs; hypotheses discharged by C14's tables) *)
+Theorem C12_typed_program_roundtrip_elements : forall (ns : list (NodeCodec.dnode N)) (r : list bool)
+    (key : N -> option N) (kf : N -> N) (wval : N -> cval) (target : N -> ty),
+  NodeCodec.wf_prog N RealJets.elements_okb ns -> Decode.dec_struct ns = Ok tt ->
+  (forall p, p < N.of_nat (length ns) -> key p = Some (kf p)) ->
+  (forall p q, p < N.of_nat (length ns) -> q < N.of_nat (length ns) -> kf p = kf q -> p = q) ->
+  (forall n, In n (WitnessCodec.witness_order ns key) -> wit_ok (wval n) (target n) = true) ->
+  let order := WitnessCodec.witness_order ns key in
+  NodeCodec.dec_prog N RealJets.elements_dec
+    (NodeCodec.enc_prog N RealJets.elements_enc (Linearise.linearise ns key) ++ r) = Ok (ns, r) /\
+  WitnessCodec.witness_stream ns key (fun n => compact_enc (cv_val (wval n))) = witness_stream (map wval order) /\
+  decode_stream (map target order) (pad_to_byte (witness_stream (map wval order))) = Ok (map wval order).
+Proof. exact typed_program_roundtrip_elements. Qed.
+Print Assumptions C12_typed_program_roundtrip_elements.
+
+(* satisfiable: comp (pair witness witness) unit with a bit and a 2-bit word *)
+Theorem C12_typed_program_roundtrip_ex :
+  NodeCodec.wf_prog N RealJets.elements_okb ex_ns /\ Decode.dec_struct ex_ns = Ok tt /\
+  WitnessCodec.witness_order ex_ns Linearise.key_ptr = [0; 1] /\
+  (forall n, In n (WitnessCodec.witness_order ex_ns Linearise.key_ptr) -> wit_ok (ex_wval n) (ex_target n) = true) /\
+  pad_to_byte (witness_stream (map ex_wval [0; 1])) = [true; false; true; false; false; false; false; false] /\
+  decode_stream [Bit; word_ty 1] [true; false; true; false; false; false; false; false]
+    = Ok [CV Bit (SR SU); CV (word_ty 1) (SP (SL SU) (SR SU))].
+Proof. exact typed_program_roundtrip_ex. Qed.
+Print Assumptions C12_typed_program_roundtrip_ex.
+
+(* 8. The width clause on the Bit Machine model (C05): a typed table - every reachable node obeys its typing rule,
+   every reachable witness has exactly the target type of its node, which is what the routes guarantee - unfolds
+   into a well-typed term of Core/Term.v; Core's exec_correct then says that the machine neither panics nor runs
+   out of fuel on it, for every input value, padding and initial buffer, and stays within the static bounds. *)
+From RS Require Core.Term Core.Typing Core.Sem Core.Bounds Core.Limits Core.Machine Infer.Constraints
+  Redeem.Retype Redeem.RetypeInfer Redeem.CoreBridge Redeem.MachineEnd.
+Import Core.Term Core.Typing Core.Bounds Core.Limits Core.Machine Infer.Constraints
+  Redeem.Retype Redeem.RetypeInfer Redeem.CoreBridge Redeem.MachineEnd.
+
+Theorem C12_typed_table_machine_safe : forall (jet_sem : N -> N -> sval -> option sval) (jt : jet_table) (fam : N),
+  (forall f j s t v o, jet_ty_of jt f j = Some (s, t) ->
+     has_ty v s = true -> jet_sem f j v = Some o -> has_ty o t = true) ->
+  forall (q : rprog) (ar : arrows) (root : nat) (C : list (list N)) (s t : ty),
+  rwf q = true -> (root < length q)%nat -> typed_from (jet_ty_of jt) q ar root -> fam_ok fam q root ->
+  ar root = Some (s, t) ->
+  exists t0, unfold_r (length q) q ar C root = Some t0 /\ typed (jet_ty1 (jet_ty_of jt) fam) t0 s t /\
+    (forall prof jet_cost,
+      check_program prof (bw s) (bw t) (bounds jet_cost t0) = Ok tt ->
+      forall a pbits m0, padded_of s a pbits -> length m0 = N.to_nat (machine_cells jet_cost t0) ->
+        match machine_exec prof jet_cost (jet_sem1 fam jet_sem) t0 m0 (Some (s, pbits)) with
+        | Ok (st, _) | Err (_, st) =>
+            hwc st <= width s + width t + extra_cells (bounds jet_cost t0) /\
+            hwc st <= msize m0 /\
+            hwf st <= extra_frames (bounds jet_cost t0) + IO_EXTRA_FRAMES
+        | Panic _ | OutOfFuel => False
+        end).
+Proof. exact typed_table_machine_safe. Qed.
+Print Assumptions C12_typed_table_machine_safe.
